@@ -130,6 +130,9 @@ func (p *Plan) FaultFree() bool {
 				default:
 					return false
 				}
+				if f := r.Trigger.Follow; f != nil && f.Kind != ActStart && f.Kind != ActStop && f.Kind != ActStopCtx {
+					return false
+				}
 			}
 		}
 		if in.DropAll || len(in.WatchDrop) > 0 || in.WatchFail > 0 {
